@@ -86,9 +86,10 @@ const (
 
 // ATV is one AttributeTypeAndValue.
 type ATV struct {
-	OID string
-	Tag int
-	Val []byte
+	OID   string
+	Tag   int
+	Val   []byte
+	Class int // 0 universal (the usual case), 1 application, 2 context-specific, 3 private
 }
 
 // A builds a PrintableString/UTF8String attribute (UTF8 unless the OID is C or serial).
@@ -100,13 +101,21 @@ func A(oid, val string) ATV {
 	if oid == OIDEmail || oid == OIDDC {
 		tag = der.TagIA5
 	}
-	return ATV{oid, tag, []byte(val)}
+	return ATV{OID: oid, Tag: tag, Val: []byte(val)}
 }
 
 // AT builds an attribute with an explicit string type.
-func AT(oid string, tag int, val []byte) ATV { return ATV{oid, tag, val} }
+func AT(oid string, tag int, val []byte) ATV { return ATV{OID: oid, Tag: tag, Val: val} }
 
-func (a ATV) node() *der.Node { return der.Seq(der.OID(a.OID), der.Prim(a.Tag, a.Val)) }
+// ATC builds an attribute whose value carries a tag of another class (same tag NUMBER as a string type, but not
+// that string type).
+func ATC(oid string, class, tag int, val []byte) ATV { return ATV{OID: oid, Tag: tag, Val: val, Class: class} }
+
+func (a ATV) node() *der.Node {
+	v := der.Prim(a.Tag, a.Val)
+	v.Class = a.Class
+	return der.Seq(der.OID(a.OID), v)
+}
 
 // Name builds an RDNSequence with one attribute per RDN.
 func Name(attrs ...ATV) *der.Node {
